@@ -207,7 +207,7 @@ Proof.
     apply final_check_ok; exact Hst'. }
   destruct nosym; [apply ret_partial_ok; assumption|].
   eapply okp_bind.
-  { instantiate (1 := okR QT). destruct (EMU_PS_ONLY_TRAILING && negb (is_nil rest)); [constructor; exact I|].
+  { instantiate (1 := okR QT). destruct (EMU_PS_ONLY_TRAILING && negb (ps_trailing rest)); [constructor; exact I|].
     apply may_follow_link_ok; assumption. }
   intros r _.
   destruct r as [_u2|e]; [|apply bail_ok; assumption].
